@@ -37,7 +37,12 @@ RULE = (
     "in between), object fresh or parsed from text, getters touched or not between the writes, text-first or "
     "getters-first afterwards, compared with a fresh object given only the last content; ONE SDFile under every "
     "sequence of <= 2 (thorough 3) operations of {put, delete, convert.set_structure, refused set_structure} on "
-    "names A/B/C from an empty and a parsed file; to_mol/from_mol repeated on the same Mol / stack.  A case is "
+    "names A/B/C from an empty and a parsed file; to_mol/from_mol repeated on the same Mol / stack; audit: alias "
+    "(every listed aliasing scenario x 3 contents x MOLFile/SDRecord/RDKit), flavour (every listed coordinate / "
+    "charge / element array flavour x V2000/V3000/MOLFile/to_mol, differential against the canonical arrays), shape "
+    "(0 atoms, bare records at every subset of positions of 1..3-record files, numbered keys / names in every order, "
+    "9..12 models, all 24 atom permutations, all 6 x 8 bond row orders x orientations), lazy (6 x 6 forcing levels of "
+    "two parsed SD files x 5 kinds of difference).  A case is "
     "non-trivial when it carries >= 1 deviation from the plain base molecule / "
     "empty header / single plain key and the oracle compared a parsed file or a read-back object (or verified a "
     "refusal)."
@@ -2129,6 +2134,12 @@ def reuse_obj_cases(tier):
                                                                                  ["hs", "sh"], ["sh", "hs"]):
                                 yield {"kind": "reuse", "fam": "obj", "cont": cont, "origin": origin, "touch": touch,
                                        "text_first": text_first, "seq": [a, b], "modes": modes}
+                    if q and not touch and text_first:
+                        # error path: valid, refused, valid - the next valid write behaves as on a fresh object
+                        for a in REUSE_SMALL:
+                            for c in REUSE_SMALL:
+                                yield {"kind": "reuse", "fam": "obj", "cont": cont, "origin": origin, "touch": touch,
+                                       "text_first": text_first, "seq": [a, "nan", c], "modes": ["hs", "sh", "hs"]}
                     if not q:
                         for a in REUSE_SMALL:
                             for b in pool:
@@ -2517,6 +2528,756 @@ def run_reuse(shard, ctx):
 
 
 # ---------------------------------------------------------------------------
+# kind "audit": dimension audit families  (alias, flavour, shape, lazy)
+# ---------------------------------------------------------------------------
+def obj_getters(obj, cont):
+    o = {"structure": snapshot(obj.get_structure()), "header": header_tuple(obj.header)}
+    if cont == "rec":
+        o["metadata"] = meta_list(obj.metadata)
+    return o
+
+
+def consistent(obj, cont):
+    """what the getters report == what a reader of the written text obtains (None if consistent)"""
+    a = obj_getters(obj, cont)
+    b = obj_getters(reuse_parse(reuse_text(obj, cont), cont), cont)
+    for k in a:
+        if a[k] != b[k]:
+            return k, a[k], b[k]
+    return None
+
+
+def mutate_atoms(a):
+    """change every mutable part of an AtomArray in place"""
+    a.coord += np.float32(1.5)
+    a.element[:] = "O"
+    if "charge" in a.get_annotation_categories():
+        a.charge[:] = 7
+    if a.array_length() >= 2:
+        a.bonds.add_bond(0, a.array_length() - 1, 3)
+        a.bonds.remove_bond(0, 1)
+
+
+ALIAS_SCENARIOS = ["args_after_write", "structure_from_getter", "header_arg", "header_from_getter", "metadata_dict_arg",
+                   "metadata_obj_arg", "metadata_from_getter", "ctab_lines_arg", "record_in_file", "rd_atoms_arg",
+                   "rd_result", "rd_mol_arg"]
+
+
+def alias_cases(tier):
+    for sc in ALIAS_SCENARIOS:
+        for cid in ("c1", "c2", "c3"):
+            if sc.startswith("rd_"):
+                for depth in (0, 2):
+                    yield {"kind": "audit", "fam": "alias", "sc": sc, "cid": cid, "depth": depth}
+            elif sc in ("ctab_lines_arg",):
+                yield {"kind": "audit", "fam": "alias", "sc": sc, "cid": cid}
+            elif sc in ("metadata_dict_arg", "metadata_obj_arg", "metadata_from_getter", "record_in_file"):
+                yield {"kind": "audit", "fam": "alias", "sc": sc, "cid": cid, "cont": "rec"}
+            elif sc == "header_from_getter":
+                for cont in ("mol", "rec"):
+                    for parsed in (False, True):
+                        yield {"kind": "audit", "fam": "alias", "sc": sc, "cid": cid, "cont": cont, "parsed": parsed}
+            else:
+                for cont in ("mol", "rec"):
+                    yield {"kind": "audit", "fam": "alias", "sc": sc, "cid": cid, "cont": cont}
+
+
+def eval_alias(case):
+    import biotite.structure as struc
+    from biotite.structure.io import mol as molio
+
+    sc, cid, pal = case["sc"], case["cid"], case["pal"]
+    cont = case.get("cont")
+    c = REUSE_CONTENTS[cid]
+    m, ver, atoms0 = reuse_atoms(cid, pal)
+    atoms = atoms0.copy()
+    kw = {} if ver is None else {"version": ver}
+    site = "alias[%s]" % sc
+    klass = cont or "rdkit" if sc.startswith("rd_") else (cont or "ctab")
+
+    def must_be_independent(before, after, what):
+        for k in before:
+            if before[k] != after[k]:
+                raise Fail("shares_state_" + k, what, str(before[k])[:300], str(after[k])[:300])
+
+    def must_be_consistent(obj, what):
+        r = consistent(obj, cont)
+        if r:
+            raise Fail("getter_vs_text_" + r[0], what + ": the getters report something else than a reader of the "
+                       "written text obtains", str(r[2])[:300], str(r[1])[:300])
+
+    try:
+        if sc == "args_after_write":
+            obj = reuse_new(cont)
+            obj.header = make_header(REUSE_HEADERS[c["h"]])
+            obj.set_structure(atoms, **kw)
+            if snapshot(atoms) != snapshot(atoms0):
+                raise Fail("input_mutated", "set_structure changed its argument", None, None)
+            before = reuse_observe(obj, cont, True)
+            mutate_atoms(atoms)
+            must_be_independent(before, reuse_observe(obj, cont, True),
+                                "mutating the AtomArray after set_structure changed the file object")
+        elif sc == "structure_from_getter":
+            obj = reuse_new(cont)
+            reuse_write(obj, cont, cid, "hs", pal)
+            before = reuse_observe(obj, cont, True)
+            s1 = obj.get_structure()
+            mutate_atoms(s1)
+            must_be_independent(before, reuse_observe(obj, cont, True),
+                                "mutating the AtomArray returned by get_structure changed the file object")
+        elif sc == "header_arg":
+            obj = reuse_new(cont)
+            h = make_header(REUSE_HEADERS[c["h"]])
+            if cont == "mol":
+                obj.header = h
+                obj.set_structure(atoms, **kw)
+            else:
+                obj = molio.SDRecord(header=h)
+                obj.set_structure(atoms, **kw)
+            h.comments = "changed afterwards"
+            h.initials = "ZZ"
+            # sharing the Header object is existing behaviour (unspecified); getters and text have to agree
+            must_be_consistent(obj, "header object mutated after it was assigned")
+        elif sc == "header_from_getter":
+            obj = reuse_new(cont)
+            reuse_write(obj, cont, cid, "hs", pal)
+            if case.get("parsed"):
+                obj = reuse_parse(reuse_text(obj, cont), cont)
+            h = obj.header
+            h.comments = "edited in place"
+            h.program = "EDIT"
+            must_be_consistent(obj, "header returned by the getter edited in place")
+        elif sc == "metadata_dict_arg":
+            d = {molio.Metadata.Key(**k): v for k, v in c["meta"]}
+            obj = molio.SDRecord(metadata=d)
+            obj.set_structure(atoms, **kw)
+            before = reuse_observe(obj, cont, True)
+            d[molio.Metadata.Key(name="later")] = "added afterwards"
+            for k in list(d)[:1]:
+                d[k] = "overwritten"
+            must_be_independent(before, reuse_observe(obj, cont, True),
+                                "mutating the dict passed as metadata changed the record")
+            md = molio.Metadata(d)
+            before = meta_list(md)
+            d[molio.Metadata.Key(name="later2")] = "x"
+            if meta_list(md) != before:
+                raise Fail("shares_state_metadata", "mutating the dict passed to Metadata() changed the Metadata",
+                           before, meta_list(md))
+        elif sc == "metadata_obj_arg":
+            md = reuse_metadata(c["meta"])
+            obj = molio.SDRecord(metadata=md)
+            obj.set_structure(atoms, **kw)
+            md["later"] = "added afterwards"
+            must_be_consistent(obj, "Metadata object mutated after it was assigned")
+        elif sc == "metadata_from_getter":
+            obj = molio.SDRecord()
+            reuse_write(obj, "rec", cid, "hs", pal)
+            obj = reuse_parse(reuse_text(obj, "rec"), "rec")
+            obj.metadata["edited"] = "in place"
+            must_be_consistent(obj, "metadata returned by the getter edited in place")
+            if ("edited" in obj.metadata) != ("> <edited>" in obj.serialize()):
+                raise Fail("getter_vs_text_metadata", "edit through the metadata getter", None, None)
+        elif sc == "ctab_lines_arg":
+            from biotite.structure.io.mol.ctab import read_structure_from_ctab, write_structure_to_ctab
+
+            lines = write_structure_to_ctab(atoms, **kw)
+            keep = list(lines)
+            a1 = read_structure_from_ctab(lines)
+            if lines != keep:
+                raise Fail("input_mutated", "read_structure_from_ctab changed the list of lines", None, None)
+            s1 = snapshot(a1)
+            lines[1] = "garbage"
+            mutate_atoms(atoms)
+            if snapshot(a1) != s1 or write_structure_to_ctab(atoms0, **kw) != keep:
+                raise Fail("shares_state_structure", "result of read_structure_from_ctab shares state with its input",
+                           None, None)
+        elif sc == "record_in_file":
+            f = molio.SDFile()
+            r = molio.SDRecord(header=make_header(REUSE_HEADERS[c["h"]]), metadata=reuse_metadata(c["meta"]))
+            r.set_structure(atoms, **kw)
+            f["A"] = r
+            m2, ver2, atoms2 = reuse_atoms("c0", pal)
+            r.set_structure(atoms2)          # the record object is shared with the file (existing, unspecified)
+            r.metadata["later"] = "x"
+            g = molio.SDFile.read(io.StringIO(f.serialize()))
+            a = (snapshot(f["A"].get_structure()), meta_list(f["A"].metadata), header_tuple(f["A"].header))
+            b = (snapshot(g["A"].get_structure()), meta_list(g["A"].metadata), header_tuple(g["A"].header))
+            if a != b:
+                raise Fail("getter_vs_text_record", "record mutated after it was put into the file: getters and text "
+                           "disagree", str(b)[:300], str(a)[:300])
+        else:
+            from biotite.interface.rdkit import from_mol, to_mol
+
+            Chem = rdkit()
+            depth = case["depth"]
+            mm = dict(m, ann=[])
+            S = rd_atoms(mm, depth)
+            hkw = {"add_hydrogen": False}
+            if sc == "rd_atoms_arg":
+                s0 = stack_snapshot(S)
+                mol = to_mol(S)
+                if stack_snapshot(S) != s0:
+                    raise Fail("input_mutated", "to_mol changed its argument", None, None)
+                e = rd_extract(mol)
+                S.coord += np.float32(2.0)
+                S.element[:] = "N"
+                S.charge[:] = 3
+                S.bonds.add_bond(0, S.array_length() - 1, 2)
+                if rd_extract(mol) != e:
+                    raise Fail("shares_state_mol", "mutating the atoms after to_mol changed the Mol", None, None)
+            elif sc == "rd_result":
+                mol = to_mol(S)
+                e = rd_extract(mol)
+                b = from_mol(mol, **hkw)
+                s1 = stack_snapshot(b)
+                b.coord += np.float32(2.0)
+                b.element[:] = "N"
+                b.charge[:] = 3
+                if rd_extract(mol) != e:
+                    raise Fail("shares_state_mol", "mutating the result of from_mol changed the Mol", None, None)
+                if stack_snapshot(from_mol(mol, **hkw)) != s1:
+                    raise Fail("shares_state_result", "a second from_mol sees the mutation of the first result", None, None)
+            else:
+                mol = to_mol(S)
+                b = from_mol(mol, **hkw)
+                one = from_mol(mol, conformer_id=0, **hkw)
+                s1, s2 = stack_snapshot(b), stack_snapshot(one)
+                for cf in mol.GetConformers():
+                    cf.SetAtomPosition(0, (9.0, 9.0, 9.0))
+                mol.GetAtomWithIdx(0).SetFormalCharge(5)
+                if stack_snapshot(b) != s1 or stack_snapshot(one) != s2:
+                    raise Fail("shares_state_result", "mutating the Mol changed atoms returned by from_mol earlier",
+                               None, None)
+        return []
+    except Fail as f:
+        return [(site, f.mode, f.what, f.expected, f.observed, cont or ("rdkit" if sc.startswith("rd_") else "ctab"))]
+
+
+# ---- flavours: the same molecule handed over in other array flavours gives the same file / Mol ----------
+COORD_FLAVOURS = ["float64", "readonly", "fortran", "strided", "stack_model"]
+CHARGE_FLAVOURS = ["int8", "int16", "int32", "int64", "uint8", "float64", "bool", "python_list"]
+ELEMENT_FLAVOURS = ["U3", "U10", "object", "capitalized", "lower"]
+OTHER_FLAVOURS = ["dbt_int", "stack_refused", "key_numpy_int", "key_str_numbers", "time_date"]
+
+
+def flavour_cases(tier):
+    for fl in COORD_FLAVOURS:
+        for target in ("ctab_V2000", "ctab_V3000", "mol", "rdkit"):
+            yield {"kind": "audit", "fam": "flavour", "what": "coord", "fl": fl, "target": target}
+    for fl in CHARGE_FLAVOURS:
+        for target in ("ctab_V2000", "ctab_V3000", "rdkit"):
+            yield {"kind": "audit", "fam": "flavour", "what": "charge", "fl": fl, "target": target}
+    for fl in ELEMENT_FLAVOURS:
+        for target in ("ctab_V2000", "ctab_V3000", "rdkit"):
+            yield {"kind": "audit", "fam": "flavour", "what": "element", "fl": fl, "target": target}
+    for fl in OTHER_FLAVOURS:
+        yield {"kind": "audit", "fam": "flavour", "what": "other", "fl": fl, "target": "sdf"}
+
+
+def flavour_base(pal):
+    m = chain_mol(4, pal, {0: 1, 2: 0, 3: 2}, ["SINGLE", "DOUBLE", "AROMATIC"])
+    m["elem"] = ["C", "CL", "N", "FE"]
+    p = PALETTES[pal]
+    m["coord"] = [[f32(float(p["base"][c]) + (3 * i + c) * float(p["step"][c])) for c in range(3)] for i in range(4)]
+    return m
+
+
+def flavour_output(atoms, target):
+    """canonical observable of a write"""
+    if target.startswith("ctab"):
+        from biotite.structure.io.mol.ctab import write_structure_to_ctab
+
+        return write_structure_to_ctab(atoms, version=target[5:])
+    if target == "mol":
+        from biotite.structure.io import mol as molio
+
+        f = molio.MOLFile()
+        f.set_structure(atoms)
+        return list(f.lines)
+    from biotite.interface.rdkit import to_mol
+
+    rdkit()
+    return rd_extract(to_mol(atoms))
+
+
+def eval_flavour(case):
+    import biotite.structure as struc
+    from biotite.structure.io import mol as molio
+
+    pal, fl, what, target = case["pal"], case["fl"], case["what"], case["target"]
+    m = flavour_base(pal)
+    site = "flavour[%s]" % what
+    either = False
+    try:
+        canon = build_atoms(m)
+        want = flavour_output(canon, target) if what != "other" else None
+        a = build_atoms(m)
+        c32 = np.array(m["coord"], dtype=np.float32).reshape(4, 3)
+        if what == "coord":
+            if fl == "float64":
+                a.coord = c32.astype(np.float64)
+            elif fl == "readonly":
+                r = c32.copy()
+                r.setflags(write=False)
+                a.coord = r
+            elif fl == "fortran":
+                a.coord = np.asfortranarray(c32)
+            elif fl == "strided":
+                big = np.zeros((8, 6), dtype=np.float32)
+                big[::2, ::2] = c32
+                a.coord = big[::2, ::2]
+            elif fl == "stack_model":
+                st = struc.stack([canon, canon])
+                st.coord[0] += 5
+                a = st[1]
+            if a.coord.dtype != np.float32 and target != "rdkit":
+                pass
+        elif what == "charge":
+            ch = [int(x) for x in m["charge"]]
+            if fl == "python_list":
+                a.set_annotation("charge", ch)
+            elif fl == "bool":
+                ch = [1, 0, 0, 1]
+                m["charge"] = ch
+                want = flavour_output(build_atoms(m), target)
+                a.set_annotation("charge", np.array(ch, dtype=bool))
+                either = True
+            elif fl == "float64":
+                a.set_annotation("charge", np.array(ch, dtype=np.float64))
+                either = True
+            else:
+                a.set_annotation("charge", np.array(ch, dtype=fl))
+        elif what == "element":
+            el = m["elem"]
+            if fl in ("U3", "U10"):
+                a.element = np.array(el, dtype=fl)
+            elif fl == "object":
+                a.element = np.array(el, dtype=object)
+            elif fl == "capitalized":
+                a.element = np.array([e.capitalize() for e in el], dtype="U2")
+            elif fl == "lower":
+                a.element = np.array([e.lower() for e in el], dtype="U2")
+        else:
+            return eval_flavour_other(case, m)
+        try:
+            got = flavour_output(a, target)
+        except Exception as e:  # noqa: BLE001
+            if either:
+                return "unspecified_refused", []
+            raise Fail("unexpected_" + type(e).__name__, "the %s flavour '%s' is refused" % (what, fl), "same output",
+                       "%s: %s" % (type(e).__name__, str(e)[:200]))
+        if got != want and either and target.startswith("ctab"):
+            # unspecified flavour (non-integer charge dtype): a file biotite refuses to read back counts as refusal
+            from biotite.structure.io.mol.ctab import read_structure_from_ctab
+
+            try:
+                read_structure_from_ctab(got)
+            except Exception:  # noqa: BLE001
+                return "unspecified_refused", []
+        if got != want:
+            raise Fail("differs_from_canonical", "the %s flavour '%s' changes what is written" % (what, fl),
+                       str(want)[:400], str(got)[:400])
+        if target.startswith("ctab"):
+            from biotite.structure.io.mol.ctab import read_structure_from_ctab
+
+            check_file_content(m, got, target[5:], [])
+            check_readback(m, read_structure_from_ctab(got), target[5:], [])
+        return ("unspecified_exact" if either else "accepted"), []
+    except Fail as f:
+        return "fail", [(site, f.mode, f.what, f.expected, f.observed, "%s+%s" % (fl, target))]
+
+
+def eval_flavour_other(case, m):
+    import datetime
+
+    import biotite.structure as struc
+    from biotite.structure.io import mol as molio
+
+    fl = case["fl"]
+    site = "flavour[other]"
+    atoms = build_atoms(m)
+    try:
+        if fl == "dbt_int":
+            m2 = dict(m, bonds=dict(m["bonds"]))
+            m2["bonds"][(0, 1)] = "QUADRUPLE"
+            a2 = build_atoms(m2)
+            from biotite.structure.io.mol.ctab import write_structure_to_ctab
+
+            want = write_structure_to_ctab(a2, default_bond_type=struc.BondType.SINGLE)
+            try:
+                got = write_structure_to_ctab(a2, default_bond_type=1)
+            except Exception:  # noqa: BLE001
+                return "unspecified_refused", []
+            if got != want:
+                raise Fail("differs_from_canonical", "default_bond_type given as int", want[:8], got[:8])
+            return "unspecified_exact", []
+        if fl == "stack_refused":
+            st = struc.stack([atoms, atoms])
+            for obj in (molio.MOLFile(), molio.SDRecord()):
+                obj.set_structure(atoms)
+                before = reuse_text(obj, "mol" if isinstance(obj, molio.MOLFile) else "rec")
+                try:
+                    obj.set_structure(st)
+                except Exception:  # noqa: BLE001
+                    pass
+                else:
+                    raise Fail("not_refused", "an AtomArrayStack is written although only one model can be", "TypeError", None)
+                if reuse_text(obj, "mol" if isinstance(obj, molio.MOLFile) else "rec") != before:
+                    raise Fail("refusal_changed_text", "refused stack changed the object", None, None)
+            return "refused", []
+        if fl in ("key_numpy_int", "key_str_numbers"):
+            conv = (lambda x: np.int64(x)) if fl == "key_numpy_int" else str
+            k1 = molio.Metadata.Key(number=conv(12), name="a", registry_internal=conv(7))
+            k0 = molio.Metadata.Key(number=12, name="a", registry_internal=7)
+            if k1 != k0 or hash(k1) != hash(k0) or k1.serialize() != k0.serialize():
+                raise Fail("differs_from_canonical", "key built from %s differs from the key built from int" % fl,
+                           str(k0), str(k1))
+            r = molio.SDRecord(metadata={k1: "v"})
+            r.set_structure(atoms)
+            back = molio.SDRecord.deserialize(r.serialize())
+            if [key_tuple(k) for k in back.metadata] != [key_tuple(k0)] or back.metadata[k0] != "v":
+                raise Fail("readback_changed", "metadata key flavour", key_tuple(k0), [key_tuple(k) for k in back.metadata])
+            return "accepted", []
+        if fl == "time_date":
+            h = molio.Header(mol_name="d", time=datetime.date(2020, 2, 29))
+            r = molio.SDRecord(header=h)
+            r.set_structure(atoms)
+            try:
+                back = molio.SDRecord.deserialize(r.serialize()).header
+            except Exception:  # noqa: BLE001
+                return "unspecified_refused", []
+            if back.time != datetime.datetime(2020, 2, 29, 0, 0) or back.mol_name != "d":
+                raise Fail("readback_time", "header time given as date (documented) comes back as another day",
+                           "2020-02-29 00:00", str(back.time))
+            return "unspecified_exact", []
+        raise ValueError(fl)
+    except Fail as f:
+        return "fail", [(site, f.mode, f.what, f.expected, f.observed, fl)]
+
+
+# ---- shape: empty / singleton pieces, many items, order independence ----------------------------------
+def shape_cases(tier):
+    for ver in VERSIONS:
+        for cont in CONTAINERS:
+            yield {"kind": "audit", "fam": "shape", "sub": "zero_atoms", "ver": ver, "cont": cont}
+    yield {"kind": "audit", "fam": "shape", "sub": "record_without_structure"}
+    yield {"kind": "audit", "fam": "shape", "sub": "empty_sdfile"}
+    for k in (1, 2, 3):
+        for mask in range(1 << k):
+            yield {"kind": "audit", "fam": "shape", "sub": "bare_records", "k": k, "mask": mask}
+    for order in itertools.permutations([10, 9, 2]):
+        yield {"kind": "audit", "fam": "shape", "sub": "numbered_keys", "numbers": list(order)}
+    yield {"kind": "audit", "fam": "shape", "sub": "numbered_keys", "numbers": list(range(12, 0, -1))}
+    for order in itertools.permutations(["10", "9", "2"]):
+        yield {"kind": "audit", "fam": "shape", "sub": "numbered_names", "names": list(order)}
+    for depth in (9, 10, 11, 12):
+        yield {"kind": "audit", "fam": "shape", "sub": "many_models", "depth": depth}
+    for perm in itertools.permutations(range(4)):
+        for ver in ("V2000", "V3000"):
+            yield {"kind": "audit", "fam": "shape", "sub": "atom_order", "perm": list(perm), "ver": ver}
+        yield {"kind": "audit", "fam": "shape", "sub": "atom_order", "perm": list(perm), "ver": "rdkit"}
+    for rows in itertools.permutations(range(3)):
+        for flip in range(8):
+            yield {"kind": "audit", "fam": "shape", "sub": "bond_rows", "rows": list(rows), "flip": flip}
+
+
+def order_base(pal):
+    m = flavour_base(pal)
+    m["elem"] = ["C", "N", "O", "S"]
+    m["charge"] = [1, 0, -2, 3]
+    m["bonds"] = {(0, 1): "SINGLE", (1, 2): "DOUBLE", (0, 3): "AROMATIC"}
+    return m
+
+
+def permute_mol(m, perm):
+    """atom i of the result is atom perm[i] of m"""
+    inv = {old: new for new, old in enumerate(perm)}
+    out = dict(m)
+    out["elem"] = [m["elem"][p] for p in perm]
+    out["charge"] = [m["charge"][p] for p in perm]
+    out["coord"] = [list(m["coord"][p]) for p in perm]
+    out["bonds"] = {(min(inv[i], inv[j]), max(inv[i], inv[j])): t for (i, j), t in m["bonds"].items()}
+    return out
+
+
+def eval_shape(case):
+    import biotite.structure as struc
+    from biotite.structure.io import mol as molio
+
+    sub, pal = case["sub"], case["pal"]
+    site = "shape[%s]" % sub
+    klass = sub
+    try:
+        if sub == "zero_atoms":
+            m = {"n": 0, "elem": [], "coord": [], "charge": [], "bonds": {}, "dbt": None}
+            fails = eval_mol_either(m, case["ver"], case["cont"], pal)
+            return fails[0], fails[1]
+        if sub == "record_without_structure":
+            r = molio.SDRecord(metadata={"k": "v"})
+            f = molio.SDFile()
+            f["n"] = r
+            try:
+                g = molio.SDFile.read(io.StringIO(f.serialize()))
+                if list(g.keys()) != ["n"] or meta_list(g["n"].metadata) != meta_list(reuse_metadata([[{"name": "k"}, "v"]])):
+                    raise Fail("readback_changed", "record without structure", None, list(g.keys()))
+                s = g["n"].get_structure()
+                if s.array_length() != 0:
+                    raise Fail("readback_count", "record without structure read back with atoms", 0, s.array_length())
+            except Fail:
+                raise
+            except Exception:  # noqa: BLE001
+                return "unspecified_refused", []
+            return "unspecified_exact", []
+        if sub == "empty_sdfile":
+            f = molio.SDFile()
+            text = f.serialize()
+            try:
+                g = molio.SDFile.read(io.StringIO(text))
+            except Exception:  # noqa: BLE001
+                return "unspecified_refused", []
+            if len(g) != 0 or list(g.keys()) != []:
+                raise Fail("readback_names", "empty SD file read back with records", [], list(g.keys()))
+            return "unspecified_exact", []
+        if sub == "bare_records":
+            k, mask = case["k"], case["mask"]
+            f = molio.SDFile()
+            exp = []
+            for i in range(k):
+                bare = bool(mask >> i & 1)
+                cid = "c0" if bare else ("c1", "c2", "c3")[i]
+                c = REUSE_CONTENTS[cid]
+                mm, ver, atoms = reuse_atoms(cid, pal)
+                r = molio.SDRecord() if bare else molio.SDRecord(header=make_header(REUSE_HEADERS[c["h"]]),
+                                                                  metadata=reuse_metadata(c["meta"]))
+                r.set_structure(atoms, **({} if ver is None else {"version": ver}))
+                f["r%d" % i] = r
+                exp.append(("r%d" % i, mm, [] if bare else c["meta"]))
+            text = f.serialize()
+            recs = ctfile.parse_sdf(text)
+            if [r["header"][0] for r in recs] != [e[0] for e in exp]:
+                raise Fail("file_content_names", "record names in text", [e[0] for e in exp], [r["header"][0] for r in recs])
+            g = molio.SDFile.read(io.StringIO(text))
+            if list(g.keys()) != [e[0] for e in exp]:
+                raise Fail("readback_names", "record names read back", [e[0] for e in exp], list(g.keys()))
+            for (nm, mm, meta), rec in zip(exp, recs):
+                if len(rec["data"]) != len(meta):
+                    raise Fail("file_content_data", "data items of record %s in text" % nm, len(meta), len(rec["data"]))
+                check_readback(mm, g[nm].get_structure(), None, [])
+                if meta_list(g[nm].metadata) != meta_list(reuse_metadata(meta)):
+                    raise Fail("readback_metadata", "metadata of record %s" % nm, meta, meta_list(g[nm].metadata))
+            klass = "bare_%s" % "".join("b" if mask >> i & 1 else "f" for i in range(k))
+            return "accepted", []
+        if sub == "numbered_keys":
+            items = [[{"number": n, "name": "k%d" % n}, "v%d" % n] for n in case["numbers"]]
+            res, fails = eval_meta([(dict(k), v) for k, v in items], "setitem", pal)
+            return res, [f + (sub,) for f in fails]
+        if sub == "numbered_names":
+            res, fails = eval_records({"kind": "records", "names": case["names"]}, pal, "records")
+            return res, [f + (sub,) for f in fails]
+        if sub == "many_models":
+            from biotite.interface.rdkit import from_mol, to_mol
+
+            rdkit()
+            depth = case["depth"]
+            mm = dict(order_base(pal), ann=[])
+            a = build_atoms(mm)
+            models = []
+            for k in range(depth):
+                b = a.copy()
+                b.coord = a.coord + np.float32(k)
+                models.append(b)
+            S = struc.stack(models)
+            mol = to_mol(S)
+            ids = [c.GetId() for c in mol.GetConformers()]
+            if ids != list(range(depth)):
+                raise Fail("conformer_ids", "conformer IDs of %d models" % depth, list(range(depth)), ids)
+            back = from_mol(mol, add_hydrogen=False)
+            if back.stack_depth() != depth or back.coord.tobytes() != S.coord.tobytes():
+                raise Fail("model_order", "models of a %d-model stack after to_mol/from_mol" % depth, "same order",
+                           [float(back.coord[k, 0, 0] - S.coord[0, 0, 0]) for k in range(back.stack_depth())])
+            for k in range(depth):
+                if from_mol(mol, conformer_id=k, add_hydrogen=False).coord.tobytes() != S.coord[k].tobytes():
+                    raise Fail("conformer_id_model", "from_mol(conformer_id=%d)" % k, None, None)
+            klass = "many_models_%s" % ("ge10" if depth > 10 else "le10")
+            return "accepted", []
+        if sub == "atom_order":
+            base = order_base(pal)
+            m = permute_mol(base, case["perm"])
+            if case["ver"] == "rdkit":
+                from biotite.interface.rdkit import from_mol, to_mol
+
+                rdkit()
+                mm = dict(m, ann=[])
+                back = from_mol(to_mol(build_atoms(m)), add_hydrogen=False)
+                rd_check_atoms(mm, back, np.array(m["coord"], dtype=np.float32).reshape(1, 4, 3), "permuted atoms")
+                rd_check_bonds(m, back, "default", "permuted atoms")
+                return "accepted", []
+            fails = eval_mol(m, case["ver"], "ctab", pal)
+            return ("fail" if fails else "accepted"), [f + ("atom_order",) for f in fails]
+        if sub == "bond_rows":
+            base = order_base(pal)
+            rows = [(i, j, t) for (i, j), t in base["bonds"].items()]
+            rows = [rows[k] for k in case["rows"]]
+            rows = [((j, i, t) if case["flip"] >> n & 1 else (i, j, t)) for n, (i, j, t) in enumerate(rows)]
+            a = build_atoms(base)
+            a.bonds = struc.BondList(4, np.array([(i, j, int(getattr(struc.BondType, t))) for i, j, t in rows],
+                                                  dtype=np.int64))
+            from biotite.structure.io.mol.ctab import read_structure_from_ctab, write_structure_to_ctab
+
+            for ver in ("V2000", "V3000"):
+                lines = write_structure_to_ctab(a, version=ver)
+                check_file_content(base, lines, ver, [])
+                check_readback(base, read_structure_from_ctab(lines), ver, [])
+            from biotite.interface.rdkit import from_mol, to_mol
+
+            rdkit()
+            rd_check_bonds(base, from_mol(to_mol(a), add_hydrogen=False), "default", "bond rows")
+            return "accepted", []
+        raise ValueError(sub)
+    except Fail as f:
+        return "fail", [(site, f.mode, f.what, f.expected, f.observed, klass)]
+
+
+def eval_mol_either(m, ver, cont, pal):
+    """a molecule outside the quantifier (0 atoms): clean exception anywhere, or exact"""
+    import biotite.structure as struc
+
+    a = struc.AtomArray(0)
+    a.bonds = struc.BondList(0)
+    try:
+        text, lines, _ = write_container(a, m, ver, cont)
+        back = read_container(text, lines, cont)
+    except Fail as f:
+        return "fail", [("shape[zero_atoms]", f.mode, f.what, f.expected, f.observed, "zero_atoms")]
+    except Exception:  # noqa: BLE001
+        return "unspecified_refused", []
+    if back.array_length() != 0 or (back.bonds is not None and back.bonds.get_bond_count() != 0):
+        return "fail", [("shape[zero_atoms]", "readback_count", "empty molecule read back with atoms", 0,
+                         back.array_length(), "zero_atoms")]
+    return "unspecified_exact", []
+
+
+# ---- lazy: SD files parse lazily; == and text before/after forcing, in all combinations -----------------
+FORCE_LEVELS = ["none", "getitem", "header", "metadata", "structure", "all"]
+
+
+def lazy_cases(tier):
+    for fa in FORCE_LEVELS:
+        for fb in FORCE_LEVELS:
+            for diff in ("same", "metadata_value", "header_comment", "structure", "record_name"):
+                yield {"kind": "audit", "fam": "lazy", "fa": fa, "fb": fb, "diff": diff}
+
+
+def lazy_text(pal, diff):
+    from biotite.structure.io import mol as molio
+
+    f = molio.SDFile()
+    for nm, cid in (("A", "c1"), ("B", "c2")):
+        c = REUSE_CONTENTS[cid]
+        meta = [[dict(k), v] for k, v in c["meta"]]
+        h = dict(REUSE_HEADERS[c["h"]])
+        cid2 = cid
+        if nm == "B":
+            if diff == "metadata_value":
+                meta[-1][1] = "other value"
+            elif diff == "header_comment":
+                h["comments"] = "other comment"
+            elif diff == "structure":
+                cid2 = "c3"
+            elif diff == "record_name":
+                nm = "B2"
+        mm, ver, atoms = reuse_atoms(cid2, pal)
+        r = molio.SDRecord(header=make_header(h), metadata=reuse_metadata(meta))
+        r.set_structure(atoms, **({} if ver is None else {"version": ver}))
+        f[nm] = r
+    return f.serialize()
+
+
+def force(g, level):
+    for nm in list(g.keys()):
+        if level == "none":
+            return
+        rec = g[nm]
+        if level in ("header", "all"):
+            rec.header
+        if level in ("metadata", "all"):
+            rec.metadata
+        if level in ("structure", "all"):
+            rec.get_structure()
+
+
+def eval_lazy(case):
+    from biotite.structure.io import mol as molio
+
+    pal = case["pal"]
+    site = "lazy"
+    try:
+        ta, tb = lazy_text(pal, "same"), lazy_text(pal, case["diff"])
+        ga, gb = molio.SDFile.read(io.StringIO(ta)), molio.SDFile.read(io.StringIO(tb))
+        force(ga, case["fa"])
+        force(gb, case["fb"])
+        want = case["diff"] == "same"
+        for x, y, lab in ((ga, gb, "a==b"), (gb, ga, "b==a")):
+            if (x == y) != want:
+                raise Fail("eq_wrong_" + ("unequal" if want else "equal"), "SDFile.__eq__ (%s) of files that %s" %
+                           (lab, "are equal" if want else "differ in " + case["diff"]), want, not want)
+        # comparing must not change what is written; forcing must not change the text
+        if ga.serialize() != ta or gb.serialize() != tb:
+            raise Fail("text_changed_by_forcing", "serialize() after partial deserialisation / comparison differs from "
+                       "the text that was read", None, None)
+        if case["diff"] != "record_name":
+            ra, rb = ga["B"], gb["B"]
+            if (ra == rb) != want or (rb == ra) != want:
+                raise Fail("record_eq_wrong_" + ("unequal" if want else "equal"), "SDRecord.__eq__ of records that %s"
+                           % ("are equal" if want else "differ in " + case["diff"]), want, not want)
+        return []
+    except Fail as f:
+        return [(site, f.mode, f.what, f.expected, f.observed, "%s+forced_%s_%s" % (case["diff"], case["fa"], case["fb"]))]
+
+
+# ---- driver ------------------------------------------------------------------------------------------------
+def audit_cases(tier):
+    yield from alias_cases(tier)
+    yield from flavour_cases(tier)
+    yield from shape_cases(tier)
+    yield from lazy_cases(tier)
+
+
+def run_audit_case(ctx, case):
+    fam = case["fam"]
+    res = None
+    if fam == "alias":
+        fails = eval_alias(case)
+    elif fam == "flavour":
+        res, fails = eval_flavour(case)
+    elif fam == "shape":
+        res, fails = eval_shape(case)
+    else:
+        fails = eval_lazy(case)
+    ctx.ev(1, 1)
+    if not fails:
+        ctx.count(res or "accepted")
+    ctx.outcome(json.dumps(case))
+    for fl in fails:
+        site, mode, what, exp, obs = fl[:5]
+        klass = fl[5] if len(fl) > 5 else fam
+        ctx.violation("%s|%s|%s" % (site, mode, klass), what, case, exp, obs)
+
+
+def run_audit(shard, ctx):
+    pal = ctx.seed % len(PALETTES)
+    for i, case in enumerate(audit_cases(ctx.tier)):
+        if case["fam"] != shard["fam"]:
+            continue
+        case["pal"] = pal
+        if not ctx.journal(json.dumps(case)):
+            continue
+        run_audit_case(ctx, case)
+        if i % 53 == 0:
+            ctx.sample(case)
+
+
+# ---------------------------------------------------------------------------
 # module contract
 # ---------------------------------------------------------------------------
 def bounds(tier):
@@ -2542,6 +3303,10 @@ def bounds(tier):
                   "writes_per_object": 2 if q else 3, "sdfile_ops": len(sdf_ops()),
                   "sdfile_ops_per_sequence": "1..%d" % (2 if q else 3), "rdkit_molecules": list(REUSE_RD),
                   "cases": sum(1 for _ in reuse_cases(tier))},
+        "audit": {"alias_scenarios": ALIAS_SCENARIOS, "coord_flavours": COORD_FLAVOURS,
+                  "charge_flavours": CHARGE_FLAVOURS, "element_flavours": ELEMENT_FLAVOURS,
+                  "other_flavours": OTHER_FLAVOURS, "force_levels": FORCE_LEVELS,
+                  "cases": sum(1 for _ in audit_cases(tier))},
         "palettes": len(PALETTES),
     }
 
@@ -2563,6 +3328,7 @@ def shards(tier, seed):
     out += [{"kind": "rd", "part": p, "of": k} for p in range(k)]
     k = 4 if q else 16
     out += [{"kind": "reuse", "part": p, "of": k} for p in range(k)]
+    out += [{"kind": "audit", "fam": fam} for fam in ("alias", "flavour", "shape", "lazy")]
     big = [s for s in out if s["kind"] == "big" and s["case"]["n"] >= 900]
     rest = [s for s in out if s not in big]
     r = seed % max(1, len(rest))
@@ -2573,7 +3339,7 @@ def run_shard(shard, ctx):
     warnings.simplefilter("ignore")
     k = shard["kind"]
     {"mol": run_mol, "chg": run_chg, "big": run_big, "header": run_header, "meta": run_meta,
-     "records": run_records, "rd": run_rd, "reuse": run_reuse}[k](shard, ctx)
+     "records": run_records, "rd": run_rd, "reuse": run_reuse, "audit": run_audit}[k](shard, ctx)
 
 
 def crash_class(case):
@@ -2617,5 +3383,7 @@ def replay(case, ctx):
         run_rd_hydrogen(ctx, pal)
     elif k == "reuse":
         run_reuse_case(ctx, case)
+    elif k == "audit":
+        run_audit_case(ctx, case)
     else:
         raise ValueError(case)
